@@ -782,33 +782,43 @@ example : expt Cfg.repaired (.fix 2) (.big 100000000000000000000) = .err .resour
 
 /-
 What the theorems say, read together: for ALL canonical exact operands (fixnum, bignum, 32-bit ratio, big ratio;
-no bound on magnitude) the model's two-operand `+ - * /`, unary `-` and `/`, left folds of `+` and `*` over any
-operand list, `quotient remainder modulo abs gcd lcm numerator denominator exact-integer-sqrt`, `expt` with a
-fixnum exponent, and `= < > <= >=` return the exact value in canonical form / decide the exact order; division
-by zero is an error; the immediate-operand paths `SUBIMMEDIATE`, `ADDIMMEDIATE` (native), `LTEIMMEDIATE` agree
-with the generic ones.  Where the pinned code was defective the full statement is under the hypothesis
+no bound on magnitude) the model's `+ - * /` with ANY number of operands, unary `-` and `/`,
+`quotient remainder modulo abs gcd lcm numerator denominator exact-integer-sqrt`, `expt` with a fixnum exponent and
+with a bignum exponent on the bases 0, ±1, and `= < > <= >=` return the exact value in canonical form / decide the
+exact order; division by zero (also of a product of divisors) is an error; `string->number (number->string x r) r = x`
+for every radix 2..16 (the text → literal half being C12's model of the lexer's number parser, imported); every
+arithmetic / comparison op code of the interpreter computes, on every operand list the compiler can emit it with,
+what the function registered under the primitive's name computes (`shape_independent`, with the op-code → function,
+name → function and emission tables regenerated from vm.rs / program.rs / code_gen.rs and decided equal to the
+model's: `op_tables_as_modelled`); folding a constant call at compile time yields the value of the call
+(`fold_is_call`).  Where the pinned code was defective the full statement is under the hypothesis
 `cfg.<flag> = true`; WHICH configuration the current tree is, is decided by the translator's flag
 (`Gen.cfg`, regenerated), not by a theorem of this file.
 
 NOT carried by any theorem (covered only by the differential correspondence of checks/c10.py):
 
- * **number ↔ string conversion** (`number->string`, `string->number`, reading literals, printing results,
-   radix): no theorem here (`Num.show` is used by the driver only); the reader side is C12's.
+ * **`string->number` is total**: FALSE for the code as it is (`string_to_number_zero_denominator_counterexample`,
+   finding K10g); on texts that `number->string` does not produce (upper-case digits, `+`, leading zeros, radix
+   prefixes, malformed texts) the model is compared with the real primitive on a generated family, no theorem.
+   `BigInt::from_str_radix` accepts `_` between digits (`"1_0"` reads as 10): not in C12's parser model.
  * **Mixed exact/inexact operations follow IEEE double arithmetic on the converted operands; comparisons of
    mixed operands are consistent with the exact values**: `Num` has no flonum; nothing is proved (tested
-   against CPython `float`/`Fraction`).  Signed zero, subnormals, infinities, NaN: likewise.
- * **Call shapes** other than the three immediate paths: variadic `-` and `/` with more than two operands
-   (only `+` and `*` folds are proved, and that `add_primitive` IS such a fold is transcription), zero- and
-   one-operand `+`/`*`, `BINOPADD`, `ADDREGISTER`, `SUBREGISTER1`, `NUMEQUAL`, `LTEIMMEDIATEIF` as a branch,
-   operand a local vs. a literal, result used as a branch condition, tail position, the **compile-time
-   constant folder** (`const_evaluation.rs`), and the **native-code (Cranelift) versions** of every operator.
- * **`expt`** with a bignum exponent (other than base 0), with a 32-bit-ratio base and an exponent outside
-   `i32`, with an exact rational exponent: the model answers `.err .unmodelled` and no theorem speaks of them.
+   against CPython `float`/`Fraction`, bit patterns compared).  Signed zero, subnormals, infinities, NaN: likewise.
+   `expt` with an exact non-integer exponent, or a ratio base with a bignum exponent, returns a double
+   (`expt_ratio_exponent_inexact` states only THAT; the bits are compared with C `pow`).
+ * **The native-code (Cranelift) versions** of the operators: only `SUBIMMEDIATE`/`ADDIMMEDIATE`'s helpers are
+   modelled (`sub_immediate_is_sub`, `add_immediate_is_add`); the others are exercised by the loop / map / module
+   shapes of the correspondence.  That the COMPILER emits an op code only under the rule the table lists is the
+   translator's reading of `inline_num_operations` etc., not a semantics of the compiler (C01/C02).
+ * **`expt`** with a bignum exponent on a base other than 0, ±1: the exact result cannot exist in memory; the model
+   answers `.err .resource` (`expt_big_exponent_unrepresentable`) and the real code is never run on it.  With a
+   32-bit-ratio base and an exponent outside `i32`: `.err .unmodelled`.
  * **`quotient`/`remainder`/`modulo`/`gcd`/`lcm` on integral values that are not exact integers**, `floor`,
    `round`, `truncate`, `exact->inexact`, `inexact->exact`, `square`, `sqrt` of exact squares,
    `exact-integer-sqrt` of a non-canonical argument: not covered.
  * **That the Rust match arms compute what the model's arms compute**: `rust_arms_complete` checks that an arm
-   EXISTS for every pair of kinds; `num-bigint`/`Ratio<BigInt>` arithmetic is taken as exact by assumption.
+   EXISTS for every pair of kinds; `num-bigint`/`Ratio<BigInt>` arithmetic is taken as exact by assumption;
+   `radix_fmt::small` / `to_str_radix` / `from_str_radix` are taken to be positional notation.
  * **Overflow behaviour of a release build** (wrapping instead of panicking) is represented as `.panic`.
 -/
 
